@@ -35,7 +35,7 @@ import (
 type rawT = *treechangeproto.RawTreeChangeWithId
 
 type desc struct {
-	Kind    string   `json:"kind,omitempty"` // "" = AddRawChanges scenario, "roots" = root world (roots.go)
+	Kind    string   `json:"kind,omitempty"` // "" = AddRawChanges scenario, "roots" = root world (roots.go), "race" = race world (race.go)
 	From    int      `json:"from,omitempty"`
 	To      int      `json:"to,omitempty"`
 	Seed    uint64   `json:"seed"`
@@ -43,13 +43,14 @@ type desc struct {
 	Size    int      `json:"size"`
 	Summary []string `json:"summary"`
 	Tags    []string `json:"tags,omitempty"`
+	Ready   int      `json:"ready,omitempty"` // kind "race": the interception point from which the concurrent ACL writer is ready
 }
 
 // node: a properly signed change of the pool
 type node struct {
 	raw    rawT
 	author int
-	head   int // cited ACL record number
+	head   int   // cited ACL record number
 	prev   []int // indexes into pool (-1 = root)
 	via    string
 }
@@ -380,6 +381,8 @@ type runner struct {
 	w       *vlib.Writer
 	db      *DB
 	samples []interface{}
+
+	raceCache *raceWorldT
 }
 
 func (rn *runner) scenario(seed, idx uint64, size int) {
@@ -461,7 +464,23 @@ func (rn *runner) scenario(seed, idx uint64, size int) {
 		}
 	}
 
-	// ---- the Coq term
+	term := vlib.App("CScen", s.scenTerm(derived, recvLen, built, obs0, dels))
+	d := desc{Seed: seed, Idx: idx, Size: size, Summary: s.sum}
+	ci := w.Add(term, d, fmt.Sprintf("%d/%d", seed, idx), nontrivial)
+	for _, dl := range dels {
+		if dl.obs.Panic != "" {
+			w.Violation(ci, "C02-add-panic", dl.what+": "+dl.obs.Panic, d)
+		}
+	}
+	if len(rn.samples) < 4 && nontrivial {
+		rn.samples = append(rn.samples, d)
+	}
+}
+
+// scenTerm: the Coq term (mkScen ...) of a scenario: ACL log, every account's real PermissionChanges, the root, the
+// ACL length at BuildObjectTree, what was observed after the build and after every delivery.
+func (s *scen) scenTerm(derived bool, recvLen int, built bool, obs0 Obs, dels []delivery) string {
+	acl := s.acl
 	var recs []string
 	prev := 1
 	for _, rec := range acl.Recs {
@@ -485,19 +504,9 @@ func (rn *runner) scenario(seed, idx uint64, size int) {
 		dts = append(dts, vlib.App("mkDel", vlib.Nat(d.aclLen), vlib.List(bt), vlib.Bool(d.obs.Ok), vlib.N(uint64(d.obs.Class)),
 			setTerm(s, d.obs.Added), setTerm(s, d.after.Heads), setTerm(s, d.after.Iter), setTerm(s, d.after.Stored), boolList(d.obs.Has)))
 	}
-	term := vlib.App("CScen", vlib.App("mkScen", vlib.N(aclh.Observer), vlib.N(Owner), "1", vlib.List(recs), vlib.List(hists),
+	return vlib.App("mkScen", vlib.N(aclh.Observer), vlib.N(Owner), "1", vlib.List(recs), vlib.List(hists),
 		s.rawTerm(s.root), vlib.Bool(derived), vlib.Nat(recvLen), vlib.Bool(built),
-		setTerm(s, obs0.Heads), setTerm(s, obs0.Iter), setTerm(s, obs0.Stored), vlib.List(dts)))
-	d := desc{Seed: seed, Idx: idx, Size: size, Summary: s.sum}
-	ci := w.Add(term, d, fmt.Sprintf("%d/%d", seed, idx), nontrivial)
-	for _, dl := range dels {
-		if dl.obs.Panic != "" {
-			w.Violation(ci, "C02-add-panic", dl.what+": "+dl.obs.Panic, d)
-		}
-	}
-	if len(rn.samples) < 4 && nontrivial {
-		rn.samples = append(rn.samples, d)
-	}
+		setTerm(s, obs0.Heads), setTerm(s, obs0.Iter), setTerm(s, obs0.Stored), vlib.List(dts))
 }
 
 func (rn *runner) deliveries(s *scen, tree *Tree, recv list.AclList, recvLen int, size int) []delivery {
@@ -602,10 +611,10 @@ func (rn *runner) deliveries(s *scen, tree *Tree, recv list.AclList, recvLen int
 func main() {
 	o := vlib.ParseFlags()
 	vlib.Quiet()
-	w := vlib.NewWriter(o.Out, "C02_run", 14)
+	w := vlib.NewWriter(o.Out, "C02_run", 24)
 	rn := &runner{w: w, db: &DB{}}
 	defer rn.db.Close()
-	rule := "a scenario is non-trivial if at least one delivery attached a change (every scenario also contains rejected deliveries, counted in the distribution); a root-world case (10 root deliveries sharing one ACL) is non-trivial if at least one delivery returned a live tree; distinct = distinct (seed, index[, first delivery])"
+	rule := "a scenario is non-trivial if at least one delivery attached a change (every scenario also contains rejected deliveries, counted in the distribution); a root-world case (10 root deliveries sharing one ACL) is non-trivial if at least one delivery returned a live tree; a race case (one schedule of a concurrent ACL writer against the calls of one world) is non-trivial if at least one call attached a change (cases in which a record landed while a call was running are counted in the distribution); distinct = distinct (seed, index[, first delivery | ready point])"
 
 	if o.Replay != "" {
 		for _, raw := range vlib.ReadReplay(o.Replay) {
@@ -615,6 +624,10 @@ func main() {
 			}
 			if d.Kind == "roots-keys" {
 				rn.rootWorldKeys(d.Seed, d.Idx, d.Size, d.From, d.To)
+				continue
+			}
+			if d.Kind == "race" {
+				rn.raceRun(d.Seed, d.Idx, d.Size, d.Ready)
 				continue
 			}
 			if d.Kind == "roots" {
@@ -651,6 +664,14 @@ func main() {
 	}
 	for i := 0; i < n; i++ {
 		rn.scenario(o.Seed, uint64(i), size)
+	}
+	// ACL records landing DURING AddRawChanges: a concurrent ACL writer takes every lock-free point the call offers (race.go)
+	rworlds := 30
+	if o.Tier == "thorough" {
+		rworlds = 400
+	}
+	for i := 0; i < rworlds*o.Budget; i++ {
+		rn.raceWorld(o.Seed, uint64(i), 5)
 	}
 	keys := make([]string, 0)
 	for k := range w.Stats {
